@@ -46,7 +46,11 @@ pub fn run(inv: &Invocation) -> Run {
         Ok(f) => f,
         Err(e) => return Run { code: None, stdout: format!("<scratch file error {}>", e) },
     };
-    let child = Command::new(inv.bin).args(&inv.args).stdin(Stdio::null()).stderr(Stdio::null()).stdout(Stdio::from(f)).env("RUST_BACKTRACE", "0").spawn();
+    let mut cmd = Command::new(inv.bin);
+    cmd.args(&inv.args).stdin(Stdio::null()).stderr(Stdio::null()).stdout(Stdio::from(f)).env("RUST_BACKTRACE", "0");
+    // a runaway allocation in the binary ends as "no answer", not as an out-of-memory machine
+    crate::mem::limit_child(&mut cmd);
+    let child = cmd.spawn();
     let mut child = match child {
         Ok(c) => c,
         Err(e) => return Run { code: None, stdout: format!("<spawn error {}>", e) },
@@ -405,6 +409,8 @@ fn malformed_invocations(dir: &Path) -> Vec<(String, Invocation)> {
     bad_files.push(("iccma_wrong_arity".into(), mk("b5.af", "p af 2\n1 2 1\n"), "iccma23"));
     bad_files.push(("iccma_content_after_blank".into(), mk("b6.af", "p af 2\n\n1 2\n"), "iccma23"));
     bad_files.push(("iccma_empty".into(), mk("b7.af", ""), "iccma23"));
+    bad_files.push(("iccma_header_after_blank".into(), mk("b11.af", "\np af 2\n"), "iccma23"));
+    bad_files.push(("iccma_attack_after_trailing_blank".into(), mk("b12.af", "p af 2\n1 2\n\n2 1\n"), "iccma23"));
     bad_files.push(("apx_undeclared".into(), mk("b8.apx", "arg(a).\natt(a,b).\n"), "apx"));
     bad_files.push(("apx_arg_after_att".into(), mk("b9.apx", "arg(a).\natt(a,a).\narg(b).\n"), "apx"));
     bad_files.push(("apx_wrong_arity".into(), mk("b10.apx", "arg(a).\narg(b).\natt(a).\n"), "apx"));
